@@ -534,6 +534,10 @@ void Archiver::ReadDataInternal(void* data, size_t size)
 {
     CheckRead();
     readStream->read(static_cast<char*>(data), size);
+    if (static_cast<size_t>(readStream->gcount()) != size) {
+        // the archive ends (or the stream failed) inside this record
+        throw ArchiveErrors::ReadStreamFail();
+    }
 }
 
 bool Archiver::Loading() const
